@@ -198,6 +198,14 @@ theorem C07_adjacent_tokens_no_glue (t0 t : Tok) (hw : TokWF t0) (d c : Char) (h
     subst hc
     simpa [adjOK, hs] using hadj
 
+/-- `real2exp` formats the value with printf's `#` flag in every branch (regenerated: the formats of its `snprintf` calls), which
+is where the hypothesis `RealSp` of `C07_real_respelled_lexes` comes from: with `#` the text of a finite value always has the shape
+digits `.` digits [exponent], and `real2exp` then only removes trailing zeros of the fraction (`real2exp_eq`).  (Seed C07-e2
+drops the `#` and re-inserts the point after the exponent: `1e+20.`.) -/
+theorem C07_real_format_keeps_point :
+    ExpPrec.realFormats ≠ [] ∧ ExpPrec.realFormats.all (fun f => f.toList.take 2 == ['%', '#']) = true := by
+  decide
+
 /-- `EXPRop1_out` prints the operand of NOT and of unary minus with `paren = 1` (regenerated from its `EXPR_out( eo->op1, … )` call),
 which is what the model's `exprFrags sh a true none` for `.neg a` / `.not a` assumes and what keeps `-` from being followed by a
 second `-`: `-( -x )`.  (Seed C07-e1 makes the argument depend on the operand and prints `--x`.) -/
